@@ -847,6 +847,20 @@ func runCalls(a Args, prop string) tr.Summary {
 		return sum
 	}
 	var cases []callsCase
+	if a.Only != "" && strings.Contains(a.Only, "\"seq\"") {
+		// replay of one case of the Framing model's message space
+		var fc struct {
+			Kind string  `json:"kind"`
+			Seq  []frMsg `json:"seq"`
+		}
+		if err := json.Unmarshal([]byte(a.Only), &fc); err != nil {
+			panic(err)
+		}
+		ft := tr.New(a.Out + ".framing")
+		frRun(ft, 1, fc.Kind, fc.Seq)
+		ft.Close()
+		return sum
+	}
 	if a.Only != "" {
 		var c callsCase
 		if err := json.Unmarshal([]byte(a.Only), &c); err != nil {
@@ -868,5 +882,11 @@ func runCalls(a Args, prop string) tr.Summary {
 	sum.Cases = len(cases)
 	sum.Events = t.Lines
 	sum.Nontrivial = len(cases)
+	if a.Only == "" && (prop == "c12" || prop == "c13") {
+		n := runFraming(a, []string{"dgram", "stream", "http"})
+		sum.Extra = tr.Rec{"framing_model_cases": n}
+		sum.Cases += n
+		sum.Nontrivial += n
+	}
 	return sum
 }
